@@ -57,7 +57,7 @@ def fresh(rep, tier, seed):
     names = [c[4] for c in chains]
     # violation keys name the input class (family, STDOFF sequence, RULES kinds / UNTIL form), not the running zone number
     label = {c[4]: (c[0], '_'.join(c[2].split(' until ')[0].split(' ')[:-1]), c[1]) for c in chains}
-    src = {c[4]: c[3] for c in chains}
+    src = {c[4]: rules + '\n' + c[3] for c in chains}   # self-contained source per zone
     if thorough:
         edge = mutants.year_boundary()
         blocks += [c[3] for c in edge]; names += [c[4] for c in edge]
